@@ -19,7 +19,7 @@ for line in open("/tmp/mut/confirm.ndjson"):
 CT = {"/tmp/seed/out/C13/m1": "seed_c13_m1", "/tmp/seed/out/C13/m2": "seed_c13_m2", "/tmp/seed/out/C13/m3": "seed_c13_m3", "/tmp/seed/out/C11/m3": "seed_demo",
       "/tmp/seed/out2/C13/m2": "seed_demo", "/tmp/seed/out2/C13/m3": "seed_demo",
       "/tmp/seed/out3/C13/m1": "seed_demo", "/tmp/seed/out3/C13/m3": "seed_demo",
-      "/tmp/seed/out6/C13/m1": "seed_demo", "/tmp/seed/out3/C18/m1": "seed_demo_m1 (package lrlex)", "/tmp/seed/out3/C18/m2": "seed_demo_m2 (package lrlex)", "/tmp/seed/out3/C18/m3": "seed_demo_m3 (package lrlex)"}
+      "/tmp/seed/out6/C13/m1": "seed_demo", "/tmp/seed/out6/C09/m3": "seed_demo", "/tmp/seed/out3/C18/m1": "seed_demo_m1 (package lrlex)", "/tmp/seed/out3/C18/m2": "seed_demo_m2 (package lrlex)", "/tmp/seed/out3/C18/m3": "seed_demo_m3 (package lrlex)"}
 head = subprocess.check_output(["git", "-C", "/repo", "rev-parse", "HEAD"], text=True).strip()
 if not os.path.isdir(WT):
     os.makedirs(os.path.dirname(WT), exist_ok=True)
